@@ -130,7 +130,7 @@ def tlc(ctx, module, cfg=None, env=None, workers=1, timeout=600, xmx="2g", extra
     ctx.ntlc += 1
     md = os.path.join(ctx.dir, "md", "%s.%d" % (module, ctx.ntlc))
     os.makedirs(md, exist_ok=True)
-    cmd = ["java", "-XX:+UseParallelGC", "-Xss64m", "-Xmx" + xmx, "-cp", TLC_CP, "tlc2.TLC",
+    cmd = ["java", "-XX:+UseParallelGC", "-Xss512m", "-Xmx" + xmx, "-cp", TLC_CP, "tlc2.TLC",
            "-workers", str(workers), "-metadir", md, "-noGenerateSpecTE"]
     if cfg:
         cmd += ["-config", cfg]
